@@ -29,6 +29,41 @@ void harness(void)
 		int pre = symx_conc(symx_u8("pre") & 1), post = symx_conc(symx_u8("post") & 1), k, p, q;
 		len = 0;
 		n = 0;
+		if (symx_conc(symx_u8("ltr") & 1)) {
+			/* the same mark in a left-to-right line, followed by a right-to-left word: the mark keeps its place,
+			 * the word is reversed once, in place, and nothing else moves */
+			int a;
+			len += sl_copy(s + len, "\\*[");
+			n += 3;
+			for (k = 0; k < 3; k++) {
+				unsigned char c = symx_u8("in");
+				symx_assume(c == 'a' || c == 'b' || c == ' ' || c == '1');
+				symx_assume(k != 0 || c != ' ');
+				s[len++] = c;
+				n++;
+			}
+			len += sl_copy(s + len, "] ");
+			n += 2;
+			a = n;
+			len += sl_copy(s + len, "\xd8\xa8\xd8\xa7\xd8\xa8");
+			n += 3;
+			if (post) { len += sl_copy(s + len, " x"); n += 2; }
+			s[len] = '\n';
+			s[len + 1] = 0;
+			n++;
+			xtd = 2;
+			for (i = 0; i < n; i++)
+				ord[i] = i;
+			dir_reorder(s, ord);
+			symx_observe_mem("s", s, len + 2);
+			for (i = 0; i < n; i++)
+				symx_assert(ord[i] == (i >= a && i < a + 3 ? a + a + 2 - i : i), "a right-to-left word after a nested mark is reversed once, in place");
+			symx_reach("nested-ltr");
+			symx_reach("nested");
+			symx_reach("end");
+			(void) pre; (void) p; (void) q;
+			return;
+		}
 		if (pre) { len += sl_copy(s + len, "\xd8\xa8"); n++; }
 		p = n;
 		len += sl_copy(s + len, "\\*[");
